@@ -66,6 +66,11 @@ static void *vf_calloc(size_t a, size_t b) {
 }
 static void *vf_realloc(void *old, size_t n) {
     if (vf_should_fail()) { errno = ENOMEM; return NULL; }
+    if (n == 0) {
+        /* glibc semantics (what the real build runs on): realloc(p, 0) frees p and returns NULL */
+        if (old != NULL) { free(old); vf_live_blocks--; }
+        return NULL;
+    }
 #ifdef VF_CBMC
     /* CBMC's library model: new object, copy min(old size, n) bytes, free old */
     void *p = realloc(old, n);
